@@ -772,7 +772,14 @@ func unify(p, t *Term, b Bind) bool {
 			if (t.K == "conv" || old.K == "conv") && isPtrConv(t) && isPtrConv(old) {
 				return stripConv(old).Key() == stripConv(t).Key()
 			}
+			// a conversion to a map / slice type with the same element layout (url.Values <-> map[string][]string) names the same value
+			if (t.K == "conv" || old.K == "conv") && isContainerConv(t) && isContainerConv(old) {
+				return stripConv(old).Key() == stripConv(t).Key()
+			}
 			return false
+		}
+		if t.K == "conv" && len(t.A) == 1 && isContainerConv(t) {
+			t = stripConv(t)
 		}
 		b[p.S] = t
 		return true
@@ -938,6 +945,18 @@ func constInt(o *types.Const) (int64, bool) {
 }
 
 // isPtrConv: not a conversion, or a conversion written with a pointer type ((*T)(v)): the value keeps its identity.
+// isContainerConv: every conversion layer of t targets a map or (non-byte, non-rune) slice type: the value is the same
+// container under another static type.
+func isContainerConv(t *Term) bool {
+	for t.K == "conv" && len(t.A) == 1 {
+		if !(strings.HasPrefix(t.S, "map[") || (strings.HasPrefix(t.S, "[]") && t.S != "[]byte" && t.S != "[]rune" && t.S != "[]uint8" && t.S != "[]int32")) {
+			return false
+		}
+		t = t.A[0]
+	}
+	return true
+}
+
 func isPtrConv(t *Term) bool {
 	for t.K == "conv" && len(t.A) == 1 {
 		if !strings.HasPrefix(t.S, "*") && !strings.HasPrefix(t.S, "(*") {
